@@ -19,6 +19,8 @@ DProbs == Probs /\ lastp' = <<E.lo, E.ro>> /\ UNCHANGED lastop
 (* the dictionary shows exactly the abstract value *)
 Proj == /\ Is("proj")
         /\ A(OwnerOf(lastop), "projection-after-" \o lastop, E.p = Project(dict))
+        /\ ("chars" \in DOMAIN E =>
+              A(OwnerOf(lastop), "character-table-after-" \o lastop, [i \in 1..Len(E.chars) |-> E.chars[i]] = CharProj(dict)))
         /\ UNCHANGED <<dict, opts, ws, cnt, memo, lastop, lastp>>
 
 User == /\ Is("user")
@@ -48,8 +50,11 @@ WR == /\ Is("wr")
       /\ A("C05", "read-accepts-own-image", E.ok)
       /\ A("C05", "write-reports-emitted-length", E.ret = E.emitted)
       /\ A("C05", "rewrite-reproduces-bytes", E.h1 = E.h2 /\ E.len2 = E.emitted)
+      (* from here on the session runs on a RELOADED dictionary: every tokenization clause is
+         also a clause of C05 ("behaves identically to D"), see OnTok *)
+      /\ dict' = [x \in DOMAIN dict \cup {"reloaded"} |-> IF x = "reloaded" THEN TRUE ELSE dict[x]]
       /\ lastop' = "wr"
-      /\ UNCHANGED <<dict, opts, ws, cnt, memo, lastp>>
+      /\ UNCHANGED <<opts, ws, cnt, memo, lastp>>
 
 (* relational clause of C06: same tokens, ids renamed by the permutation *)
 MapRel == /\ Is("maprel")
